@@ -120,6 +120,31 @@ pub fn run(ctx: &mut Ctx) {
             distinct.insert(format!("{:?}|{:?}", v, o));
         }
     }
+    // long lists: anything keyed on a length or an index (a 64-bit mask, the small-slice path of a
+    // sort) shows only here
+    let n_long = if ctx.thorough { 3000 } else { 300 };
+    for i in 0..n_long {
+        let gen = |rng: &mut Rng, lo: usize, hi: usize| -> L {
+            let n = rng.range(lo, hi);
+            let mut l: L = vec![];
+            while l.len() < n {
+                let x = rng.below(250) as u8;
+                if l.iter().any(|(_, y)| *y == x) {
+                    continue;
+                }
+                l.push((rng.chance(1, 2), x));
+            }
+            l
+        };
+        let (v, o) = match i % 3 {
+            0 => (gen(&mut rng, 1, 6), gen(&mut rng, 60, 140)),
+            1 => (gen(&mut rng, 20, 90), gen(&mut rng, 20, 90)),
+            _ => (gen(&mut rng, 60, 140), gen(&mut rng, 0, 6)),
+        };
+        add_u8(&mut sh, &v, &o, "random-long-nodup", &mut hist, &mut samples);
+        evaluations += 1;
+        distinct.insert(format!("{:?}|{:?}", v, o));
+    }
     let mut files = sh.finish();
 
     // --- String items (the instance the parser uses)
